@@ -42,6 +42,16 @@ def choose_entities(orc, itype, rng, mode="all", limit=None):
 
 
 def choose_perms(cellname, itype, ents, needs_perm, rng, mode="some"):
+    if itype in ("exterior_facet", "ridge") and needs_perm:
+        # mixed-dimensional kernels: tables of the codimension-0 functions are permuted with quadrature_permutation[0]
+        import basix
+
+        td = O.tdim_of(cellname)
+        if itype == "exterior_facet":
+            n0 = H.facet_perm_count(cellname, ents[0])
+        else:
+            n0 = 2 if td == 3 else 1
+        return [(p, 0) for p in range(n0)]
     if itype != "interior_facet":
         return [(0, 0)]
     n0 = H.facet_perm_count(cellname, ents[0])
@@ -143,6 +153,7 @@ def run_form(
                         else:
                             ent = np.array(ents if interior else ents[:1], dtype=np.intc)
                             perm = np.array(perms if interior else perms[:1], dtype=np.uint8)
+                            count_perm_used = perms[0] != 0
                         H.call_kernel(ffi, itg, scalar, A, w, c, x, ent, perm)
                         T = (A.astype(np.complex128 if cmode else np.float64) - A0.astype(np.complex128 if cmode else np.float64))
                         o = KernelObs()
